@@ -304,7 +304,7 @@ func TestC14_Heartbeat(t *testing.T) {
 		"Live peers: 30..200 idle periods with link latency up to pingTimeout/2 and optional application traffic out of phase with the pings; oracle: no OnClose at all, pings keep coming, messages still flow. "+
 		"non-trivial = one-directional loss, or during the upgrade, or within 5 ms of a ping; live: latency > 0 or >= 60 periods")
 	rapidGuard(t, "C14", c14Check)
-	runRapid(t, c14Check, tierN(1600, 60000), func(t *rapid.T) {
+	runRapid(t, c14Check, tierN(6000, 80000), func(t *rapid.T) {
 		c := genC14Case(t)
 		f, nt := evalC14(c)
 		ev.Case(c, nt, c.class())
